@@ -25,7 +25,9 @@ RULE = ('one run = one simulated hand on decks of 52/36/20/3 cards, every varian
         'documented cards to the documented pile. non-trivial = >= 10 card-moving operations; distinct = distinct '
         '(configuration class, dealer mode, operation-class sequence) digests')
 ASSUMPTIONS = [
-    'explicit known cards named by the dealer are always taken from get_dealable_cards(k), as the documentation asks',
+    'explicit known cards named by the dealer are taken from get_dealable_cards(k), as the documentation asks - except '
+    'in the "reserve" dealer mode (fault reserve_card_named), where cards lying in the muck, discard or burn piles are named '
+    'although the deck covers the deal, which the engine allows with a warning',
     'unknown cards are dealt only as burns and face-down hole cards, and are revealed with explicit cards at showdown',
     'capacity rule: run-out counts are chosen only while the deck can physically serve them',
 ]
@@ -163,7 +165,7 @@ def run(ch, ctx):
         bias['min_players'] = 5
     cfg = gen_config(ch, bias)
     family_draw = cfg['variant'] in ('N2L1D', 'F2L3D', 'FB', 'X5D', 'XA5', 'XDM')
-    dealer = ch.choice('c06.dealer', ('engine', 'explicit', 'counted', 'hidden', 'explicit'))
+    dealer = ch.choice('c06.dealer', ('engine', 'explicit', 'counted', 'hidden', 'explicit', 'reserve'))
     if dealer == 'hidden':
         v = cfg['variant']
         hole = {'PO': 4, 'FO8': 4, 'F7S': 7, 'F7S8': 7, 'FR': 7, 'XSHL': 7, 'X5S': 5, 'XO5': 5}.get(v, 2)
